@@ -118,6 +118,12 @@ def _has_nan(value):
         return any(_has_nan(v) for v in value)
     return isinstance(value, (float, np.floating)) and value != value
 
+def _has_str_subclass(value):
+    """does value, or any member of a list/tuple value, hold an instance of a subclass of str (np.str_)? cmp ranks it by its own type, python orders it with the strings"""
+    if isinstance(value, (list, tuple)):
+        return any(_has_str_subclass(v) for v in value)
+    return isinstance(value, str) and type(value) is not str
+
 def _has_numpy(value):
     """does value, or any member of a list/tuple value, hold a numpy number? numpy compares it with a python int through float64"""
     if isinstance(value, (list, tuple)):
@@ -147,7 +153,7 @@ def sort(iterable):
 
     """
     values = list(iterable)
-    if not _has_nan(values):
+    if not _has_nan(values) and not _has_str_subclass(values):
         try:
             # numpy numbers are ordered natively as the python numbers cmp sees: np.float64(2**53) == 2**53+1 is True, cmp is exact
             return sorted(values, key = as_primitive) if _has_numpy(values) else sorted(values)
